@@ -61,28 +61,28 @@ PROPS = {
     'C01': {
         'engines': [{'name': 'rd', 'timeout_quick': 900, 'timeout_thorough': 7200}, {'name': 'wr', 'timeout_quick': 600, 'timeout_thorough': 7200}],
         'trusted_base': [WORLD_COMPRESS, 'decompression oracle: mtbl_decompress'],
-        'assumptions': ['PARTIAL: C01_statement is stated in full; proved are the writer layout (T09b_layout_partial) and the block-iterator walk (T01_block_walk_partial); the statement itself is checked by vm_compute on a multi-block instance (T01_example) and by engine rd/wr on every generated table and configuration',
+        'assumptions': ['T01_* hold under explicit size hypotheses: keys/values < 4 GiB, block_size + |key| + |value| + 32 < 2^32 for every entry, index block < 4 GiB, file < 2^64 bytes, statistics < 2^64; compress/decompress are Section variables assumed to round-trip',
                         'madvise has no semantic content in the model; pooled writers are exercised by engine wr (byte-identical files)'],
         'explanation': 'Round trip = writer emits a well-formed file (C09) o reader reads every well-formed file (C11). Implementation, model and the entries added are compared on writer-made tables over the configuration space; mtbl_dump -x and its -k/-v/-K/-V filters are compared with the specification.',
     },
     'C02': {
         'engines': [{'name': 'rd', 'timeout_quick': 900, 'timeout_thorough': 7200}],
         'trusted_base': ['decompression oracle: mtbl_decompress'],
-        'assumptions': ['PARTIAL: block-level search (T02_block_search_partial = T03a) and the bound tests (T02_bounds) are proved; the index-level step of C02_statement is validated by engine rd'],
+        'assumptions': ['T02_lookups is stated over table_ok; writer outputs satisfy it by T01_written_table_ok, checked files by T11 (table_check_sound)'],
         'explanation': 'get / get_prefix / get_range on implementation, model and filter specification for every stored key, neighbours, proper prefixes, one-byte extensions, every index separator and its neighbours, empty key/prefix, reversed ranges.',
     },
     'C03': {
         'engines': [{'name': 'rd', 'timeout_quick': 900, 'timeout_thorough': 7200}],
         'trusted_base': ['decompression oracle: mtbl_decompress'],
-        'assumptions': ['T03a/T03b are about the block iterator on abstract well-formed blocks (entries as decoded); the reader-level lifting (index hand-over, block_offset, first/valid flags) is validated step by step by engine rd against the sorted-list cursor',
+        'assumptions': ['T03c is stated over table_ok (see C01/C11 for which files satisfy it); the reader model is tied to reader.c/block.c step by step by engine rd against the sorted-list cursor',
                         'buffer stability and non-interference between iterators of one reader are validated only (returned pointers re-read before the next call; several iterators interleaved)'],
         'explanation': 'T03a: block_iter_seek (gallop from the current restart index + binary search + continue-from-current shortcut + unbounded linear scan) reaches the first entry >= target from EVERY reachable iterator state of EVERY well-formed block; T03b: seek_to_first/next. Histories on the four iterator kinds, exhaustive (position,target) pairs on small tables.',
     },
     'C11': {
         'engines': [{'name': 'rd', 'timeout_quick': 900, 'timeout_thorough': 7200}],
         'trusted_base': ['decompression oracle: mtbl_decompress', 'independent encoder ocaml/enc.ml (generator; its v2 output is judged by the extracted decoder before use)'],
-        'assumptions': ['PARTIAL: T11_any_layout_partial (block iterator correct for any legal restart positions / sharing); decoding bytes into blocks and the index hand-over of C11_statement are validated by engine rd on encoder-made v1/v2 files',
-                        '64-bit restart arrays (blocks above 4 GiB) are modelled (block_init arithmetic) but not executed'],
+        'assumptions': ['T11_legal_tables is relative to the executable check table_check (extracted and run on every generated file: it must accept and decode exactly the encoded entries)',
+                        'blocks above 4 GiB (64-bit restart arrays): one sparse-file case, implementation against specification; not covered by the theorem'],
         'explanation': 'Files from an independent encoder with random legal layouts (format v1 and v2, arbitrary block boundaries, restart positions, non-maximal sharing, shortened separators, compression) are read by implementation and model: iteration, lookups, seek histories.',
     },
     'C04': {
